@@ -106,6 +106,8 @@ func c08Run(c *mon.Ctx, r *mon.Rand) {
 	desc := map[string]interface{}{"cached": cached, "closer": []string{"none", "ok", "errors"}[closerKind], "interval_us": interval.Microseconds(), "manual_passes": manual,
 		"subscopes": nSub, "close_callers": nClosers, "slow_reporter_permille": slowProb, "slow_max_us": slowMax}
 	c.LogCase(fmt.Sprint(desc))
+	stopWatch := c.Watchdog(300*time.Second, "close-or-recorders-do-not-return", desc)
+	defer stopWatch()
 
 	// guaranteed metrics: recorded strictly before Close is called
 	type gm struct {
